@@ -469,6 +469,15 @@ Theorem C05_expected_of_source_settings :
 Proof. exact expected_of_source_settings. Qed.
 Print Assumptions C05_expected_of_source_settings.
 
+(** the reading hypothesis of the last theorem holds when the settings substitute the bit-order
+    markers by [::bits::order::{Lsb0,Msb0}] (what the harness does, harness/src/c05.rs) *)
+Theorem C05_bits_order_reading :
+  forall order_tp : bool -> tpath,
+  (forall lsb, order_tp lsb = TPath (abs_path ["bits"; "order"; if lsb then "Lsb0" else "Msb0"]) []) ->
+  forall asegs lsb, tpath_pty asegs (order_tp lsb) = bits_order_pty lsb.
+Proof. exact bits_order_reading. Qed.
+Print Assumptions C05_bits_order_reading.
+
 (** the checker on the model's own output: when the observed tokens ARE the model's tokens
     ([corr_gen]), [prop_source_roundtrip] accepts.  Per definition with [cf_def c k sd] (all of its
     recorded instantiations coincidence-free): the per-definition hypotheses of
